@@ -1,4 +1,4 @@
-//go:build p_c05 || p_all
+//go:build p_c03 || p_c05 || p_c07 || p_c11 || p_c14 || p_all
 
 package main
 
